@@ -224,7 +224,7 @@ func pureValue(v ssa.Value) bool {
 
 // nonNegative: the value cannot be negative: unsigned, a range index, a constant ≥ 0, or dominated by !(v < 0).
 func nonNegative(in ssa.Instruction, v ssa.Value) bool {
-	if isUnsigned(v.Type()) || isRangeIndex(v) {
+	if isUnsigned(v.Type()) || isRangeIndex(v) || hostNonNeg[v] {
 		return true
 	}
 	if k, ok := constInt(v); ok && k >= 0 {
@@ -264,7 +264,125 @@ func nonNegative(in ssa.Instruction, v ssa.Value) bool {
 }
 
 // belowLen: dominated by idx < len(base) (same base path), or !(idx >= len(base)).
+// hostNonNeg: integer parameters supplied by the embedding host (argument positions of GetParam*), assumed ≥ 0.
+var hostNonNeg = map[ssa.Value]bool{}
+
+// successFacts: the branch facts (rendered over parameter names) that hold at every success return of f.
+var successFactsMemo = map[*ssa.Function][]string{}
+
+func successFacts(f *ssa.Function) []string {
+	if v, ok := successFactsMemo[f]; ok {
+		return v
+	}
+	successFactsMemo[f] = nil
+	var common map[string]bool
+	allInstrs(f, func(in ssa.Instruction) {
+		ret, ok := in.(*ssa.Return)
+		if !ok || len(ret.Results) == 0 || retError(ret) == "nonnil" {
+			return
+		}
+		cur := map[string]bool{}
+		for _, ec := range controlling(ret.Block()) {
+			cur[ec.String()] = true
+		}
+		if common == nil {
+			common = cur
+			return
+		}
+		for k := range common {
+			if !cur[k] {
+				delete(common, k)
+			}
+		}
+	})
+	out := sortedKeys(common)
+	successFactsMemo[f] = out
+	return out
+}
+
+// calleeBelowLen: idx < len(base) follows from the success of an earlier call h(…, base, …, idx, …) whose every
+// success return is dominated by `!(p_i >= len(p_b))`, the error result of that call having been tested nil.
+func calleeBelowLen(in ssa.Instruction, idx ssa.Value, base string) string {
+	ip := path(idx)
+	for _, ec := range factsAt(in) {
+		bo, ok := ec.Cond.(*ssa.BinOp)
+		if !ok || !isNilConst(bo.Y) {
+			continue
+		}
+		if !((bo.Op == token.NEQ && !ec.Pol) || (bo.Op == token.EQL && ec.Pol)) {
+			continue
+		}
+		ex, ok := bo.X.(*ssa.Extract)
+		if !ok {
+			continue
+		}
+		call, ok := ex.Tuple.(*ssa.Call)
+		if !ok || call.Call.StaticCallee() == nil || len(call.Call.StaticCallee().Blocks) == 0 {
+			continue
+		}
+		h := call.Call.StaticCallee()
+		if ex.Index != h.Signature.Results().Len()-1 {
+			continue
+		}
+		var pi, pb string
+		for k, a := range call.Call.Args {
+			if k >= len(h.Params) {
+				break
+			}
+			if path(a) == ip {
+				pi = h.Params[k].Name()
+			}
+			if path(a) == base {
+				pb = h.Params[k].Name()
+			}
+		}
+		if pi == "" || pb == "" {
+			continue
+		}
+		for _, sf := range successFacts(h) {
+			if sf == "!("+pi+" >= len("+pb+"))" || sf == pi+" < len("+pb+")" {
+				return fmt.Sprintf("%s returned without error, and its every success return is dominated by %s", h.Name(), sf)
+			}
+		}
+	}
+	return ""
+}
+
+// equalLenBelow: idx < len(P) is known and len(P) == len(base) was tested on this path.
+func equalLenBelow(in ssa.Instruction, idx ssa.Value, base string) string {
+	var ps []string
+	for _, ec := range factsAt(in) {
+		bo, ok := ec.Cond.(*ssa.BinOp)
+		if !ok || !sameValue(bo.X, idx, in) {
+			continue
+		}
+		if lp, isLen := lenOf(bo.Y); isLen && ((bo.Op == token.LSS && ec.Pol) || (bo.Op == token.GEQ && !ec.Pol)) {
+			ps = append(ps, lp)
+		}
+	}
+	for _, ec := range factsAt(in) {
+		bo, ok := ec.Cond.(*ssa.BinOp)
+		if !ok || !((bo.Op == token.EQL && ec.Pol) || (bo.Op == token.NEQ && !ec.Pol)) {
+			continue
+		}
+		lx, okx := lenOf(bo.X)
+		ly, oky := lenOf(bo.Y)
+		if !okx || !oky {
+			continue
+		}
+		for _, p := range ps {
+			if (lx == p && ly == base) || (ly == p && lx == base) {
+				return fmt.Sprintf("index < len(%s) and len(%s) == len(%s) was tested on this path", p, p, base)
+			}
+		}
+	}
+	return ""
+}
+
 func belowLen(in ssa.Instruction, idx ssa.Value, base string) bool {
+	if calleeBelowLen(in, idx, base) != "" || equalLenBelow(in, idx, base) != "" {
+		return true
+	}
 	for _, ec := range factsAt(in) {
 		bo, ok := ec.Cond.(*ssa.BinOp)
 		if !ok || !sameValue(bo.X, idx, in) {
@@ -370,80 +488,11 @@ func checkC01(c *Ctx) {
 	r.FloorN("functions in run scope", len(scope), 150)
 	r.FloorN("builtins with a checker summary", len(sumOut), 23)
 
-	sites := collectPanicSites(t, scope)
-	sortSites(sites)
-	counts := map[string]int{}
-	seenKey := map[string]int{}
-	for i := range sites {
-		s := &sites[i]
-		counts[s.Class]++
-		switch x := s.In.(type) {
-		case *ssa.TypeAssert:
-			// accessor bodies of pkg/ast: discharged at their call sites (kindGuarded)
-			if s.Fn.Pkg.Pkg.Path() == pAst && s.Fn.Signature.Recv() != nil && strings.HasSuffix(path(x.X), ".elem") {
-				s.By = "accessor body: obligation is on each call site (NodeType guard)"
-				break
-			}
-			s.By = tagGuarded(t, x)
-		case *ssa.IndexAddr:
-			s.By = d.dischargeIndex(s.Fn, s.In, x.X, x.Index)
-		case *ssa.Index:
-			s.By = d.dischargeIndex(s.Fn, s.In, x.X, x.Index)
-		case *ssa.Slice:
-			s.By = d.dischargeSlice(s.Fn, x)
-		case *ssa.BinOp:
-			s.By = nonZeroDivisor(x)
-		case *ssa.MakeSlice:
-			s.By = safeMake(x)
-		case *ssa.Panic:
-			s.By = ""
-		}
-		base := fmt.Sprintf("%s %s %s", relName(s.Fn), s.Class, s.What)
-		seenKey[base]++
-		key := fmt.Sprintf("%s #%d", base, seenKey[base])
-		r.Fn(relName(s.Fn))
-		r.Ob("PANIC-"+s.Class, key, t.Pos(s.In.Pos()), s.By != "", discharge(s))
-	}
+	counts, nAcc, nNil, nArg := panicRules(c, scope, nil, d, s2k)
 	r.Extra["panic_site_census"] = counts
-	// accessor call sites
-	nAcc := 0
-	var list []*ssa.Function
-	for f := range scope {
-		list = append(list, f)
-	}
-	sortFuncs(list)
-	accSeen := map[string]int{}
-	for _, f := range list {
-		allInstrs(f, func(in ssa.Instruction) {
-			call, ok := in.(*ssa.Call)
-			if !ok {
-				return
-			}
-			cal := call.Call.StaticCallee()
-			if cal == nil || cal.Pkg == nil || cal.Pkg.Pkg.Path() != pAst || cal.Signature.Recv() == nil || len(call.Call.Args) != 1 {
-				return
-			}
-			if _, isKind := s2k[cal.Name()]; !isKind {
-				return
-			}
-			nAcc++
-			by := kindGuarded(t, call, s2k)
-			if by == "" {
-				by = shapeInvariant(t, call)
-			}
-			base := fmt.Sprintf("%s accessor %s.%s()", relName(f), path(call.Call.Args[0]), cal.Name())
-			accSeen[base]++
-			r.Ob("PANIC-TA", fmt.Sprintf("%s #%d", base, accSeen[base]), t.Pos(call.Pos()), by != "", "an accessor asserts the node's dynamic type: it must be called under the matching NodeType test ("+by+")")
-		})
-	}
 	r.FloorN("accessor call sites in run scope", nAcc, 30)
-	// nil dereferences of success-nilable AST fields
-	nNil := 0
-	for _, f := range list {
-		nNil += nilDerefRule(c, "PANIC-NIL", f, d.nilable)
-	}
 	r.Counts["nilable_field_dereferences"] = nNil
-	r.Counts["nil_pointer_arguments"] = nilArgRule(c, "PANIC-NIL", list)
+	r.Counts["nil_pointer_arguments"] = nArg
 	errShape(c, scope)
 	r.Floor("PANIC-IDX", 200)
 	r.Floor("PANIC-TA", 40)
@@ -937,4 +986,90 @@ func nilArgRule(c *Ctx, rule string, list []*ssa.Function) int {
 		}
 	}
 	return n
+}
+
+// panicRules enumerates and discharges the panic sites of every function of scope that is not in skip.
+func panicRules(c *Ctx, scope, skip map[*ssa.Function]bool, d *dischargeCtx, s2k map[string]int64) (map[string]int, int, int, int) {
+	r, t := c.R, c.T
+	if skip != nil {
+		sc := map[*ssa.Function]bool{}
+		for f := range scope {
+			if !skip[f] {
+				sc[f] = true
+			}
+		}
+		scope = sc
+	}
+	sites := collectPanicSites(t, scope)
+	sortSites(sites)
+	counts := map[string]int{}
+	seenKey := map[string]int{}
+	for i := range sites {
+		s := &sites[i]
+		counts[s.Class]++
+		switch x := s.In.(type) {
+		case *ssa.TypeAssert:
+			// accessor bodies of pkg/ast: discharged at their call sites (kindGuarded)
+			if s.Fn.Pkg.Pkg.Path() == pAst && s.Fn.Signature.Recv() != nil && strings.HasSuffix(path(x.X), ".elem") {
+				s.By = "accessor body: obligation is on each call site (NodeType guard)"
+				break
+			}
+			s.By = tagGuarded(t, x)
+		case *ssa.IndexAddr:
+			s.By = d.dischargeIndex(s.Fn, s.In, x.X, x.Index)
+		case *ssa.Index:
+			s.By = d.dischargeIndex(s.Fn, s.In, x.X, x.Index)
+		case *ssa.Slice:
+			s.By = d.dischargeSlice(s.Fn, x)
+		case *ssa.BinOp:
+			s.By = nonZeroDivisor(x)
+		case *ssa.MakeSlice:
+			s.By = safeMake(x)
+		case *ssa.Panic:
+			s.By = ""
+		}
+		base := fmt.Sprintf("%s %s %s", relName(s.Fn), s.Class, s.What)
+		seenKey[base]++
+		key := fmt.Sprintf("%s #%d", base, seenKey[base])
+		r.Fn(relName(s.Fn))
+		r.Ob("PANIC-"+s.Class, key, t.Pos(s.In.Pos()), s.By != "", discharge(s))
+	}
+	// accessor call sites
+	nAcc := 0
+	var list []*ssa.Function
+	for f := range scope {
+		list = append(list, f)
+	}
+	sortFuncs(list)
+	accSeen := map[string]int{}
+	for _, f := range list {
+		allInstrs(f, func(in ssa.Instruction) {
+			call, ok := in.(*ssa.Call)
+			if !ok {
+				return
+			}
+			cal := call.Call.StaticCallee()
+			if cal == nil || cal.Pkg == nil || cal.Pkg.Pkg.Path() != pAst || cal.Signature.Recv() == nil || len(call.Call.Args) != 1 {
+				return
+			}
+			if _, isKind := s2k[cal.Name()]; !isKind {
+				return
+			}
+			nAcc++
+			by := kindGuarded(t, call, s2k)
+			if by == "" {
+				by = shapeInvariant(t, call)
+			}
+			base := fmt.Sprintf("%s accessor %s.%s()", relName(f), path(call.Call.Args[0]), cal.Name())
+			accSeen[base]++
+			r.Ob("PANIC-TA", fmt.Sprintf("%s #%d", base, accSeen[base]), t.Pos(call.Pos()), by != "", "an accessor asserts the node's dynamic type: it must be called under the matching NodeType test ("+by+")")
+		})
+	}
+	// nil dereferences of success-nilable AST fields
+	nNil := 0
+	for _, f := range list {
+		nNil += nilDerefRule(c, "PANIC-NIL", f, d.nilable)
+	}
+	nArg := nilArgRule(c, "PANIC-NIL", list)
+	return counts, nAcc, nNil, nArg
 }
